@@ -123,3 +123,75 @@ pub fn repo_queries() -> Vec<String> {
     }
     v
 }
+
+/// PRQL programs found in the repository itself: the fenced `prql` blocks of the book and the website,
+/// the raw-string programs of the integration tests (accepted and rejected ones), the integration
+/// queries and the two standard-library sources. Real programs cover syntax the model does not
+/// generate (types, annotations, modules, lambdas, dates, s-strings, parameters).
+pub fn corpus_programs() -> Vec<String> {
+    fn walk(dir: &std::path::Path, out: &mut Vec<std::path::PathBuf>, ext: &str) {
+        let Ok(rd) = std::fs::read_dir(dir) else { return };
+        let mut entries: Vec<_> = rd.filter_map(|e| e.ok().map(|e| e.path())).collect();
+        entries.sort();
+        for p in entries {
+            if p.is_dir() {
+                if p.file_name().map(|n| n == "node_modules" || n == "target").unwrap_or(false) {
+                    continue;
+                }
+                walk(&p, out, ext);
+            } else if p.extension().map(|e| e == ext).unwrap_or(false) {
+                out.push(p);
+            }
+        }
+    }
+    let mut v: Vec<String> = repo_queries();
+    for f in ["/repo/prqlc/prqlc/src/semantic/std.prql", "/repo/prqlc/prqlc/src/sql/std.sql.prql"] {
+        if let Ok(s) = std::fs::read_to_string(f) {
+            v.push(s);
+        }
+    }
+    // fenced blocks
+    let mut mds = vec![];
+    walk(std::path::Path::new("/repo/web"), &mut mds, "md");
+    mds.push(std::path::PathBuf::from("/repo/README.md"));
+    for f in mds {
+        let Ok(text) = std::fs::read_to_string(&f) else { continue };
+        let mut cur: Option<String> = None;
+        for line in text.lines() {
+            match &mut cur {
+                None => {
+                    if line.trim_start().starts_with("```prql") {
+                        cur = Some(String::new());
+                    }
+                }
+                Some(buf) => {
+                    if line.trim_start().starts_with("```") {
+                        v.push(std::mem::take(buf));
+                        cur = None;
+                    } else {
+                        buf.push_str(line);
+                        buf.push('\n');
+                    }
+                }
+            }
+        }
+    }
+    // raw strings of the integration tests
+    let re = regex::Regex::new(r##"(?s)r(#+)"(.*?)"#+"##).unwrap();
+    let mut rs = vec![];
+    walk(std::path::Path::new("/repo/prqlc/prqlc/tests/integration"), &mut rs, "rs");
+    for f in rs {
+        let Ok(text) = std::fs::read_to_string(&f) else { continue };
+        for c in re.captures_iter(&text) {
+            let body = c.get(2).map(|m| m.as_str()).unwrap_or("");
+            let t = body.trim_start();
+            let looks_prql = (t.contains("from ") || t.contains("let ") || t.contains("prql ")) && !t.starts_with("SELECT") && !t.starts_with("WITH") && !t.starts_with("Error") && !t.contains("───");
+            if looks_prql && body.len() < 4000 {
+                v.push(body.to_string());
+            }
+        }
+    }
+    v.sort();
+    v.dedup();
+    v
+}
